@@ -1,7 +1,15 @@
 /-
   C10 — renaming apart changes only variables, consistently.
+
+  Proved: renaming leaves a term unchanged once ids are erased (`rename_shape`); one map from names to ids for the whole
+  clause, distinct names distinct ids, every new id above the starting counter and at most the new one (`rename_consistent`,
+  `rename_list_consistent`); and, IN THE MIDDLE OF A SEARCH (`fresh_in_search`, `ids_stay_below_counter`): along every run of
+  the reference machine with cut from a query, every variable in use anywhere in the configuration has an id at most the
+  counter, while the clause `get_rule` hands out at that moment has ids above it only — no fresh variable is in use elsewhere
+  in the current search.  (Fragment: the control language with `!`, `fail`, `nl`, `=`, the comparisons; no function terms.)
 -/
 import SuironVerif.Model.Goal
+import SuironVerif.Lemmas.FreshInSearch
 namespace Suiron.C10
 
 mutual
@@ -195,5 +203,29 @@ theorem make_query_fresh (ts : List Term) (g : Goal) (c : Nat) (h : makeQuery ts
 example : (renameTerm (.cplx (.cons (.atom "p") (.cons (.var 0 "$X") (.cons (.var 0 "$Y") (.cons (.var 0 "$X") .nil))))) ⟨[], 7⟩).1
         = .cplx (.cons (.atom "p") (.cons (.var 8 "$X") (.cons (.var 9 "$Y") (.cons (.var 8 "$X") .nil)))) := by decide
 example : (renameTerm Term.empty ⟨[], 3⟩).1 = Term.empty := by decide
+
+/-! ### in the middle of a search -/
+
+open Suiron.Blind Suiron.Spec.Grp in
+/-- along every run of the reference machine every variable id in the configuration stays at most the counter -/
+theorem ids_stay_below_counter (fo : FloatOps) {kb : KB} (hok : kbOK kb) {a b : CConf} (h : CSteps fo kb a b)
+    (hg : goodCFs a.ctr a.stack) : goodCFs b.ctr b.stack ∧ a.ctr ≤ b.ctr :=
+  ids_below_counter fo hok h hg
+
+open Suiron.Blind Suiron.Spec.Grp in
+/-- NO FRESH VARIABLE IS IN USE ELSEWHERE IN THE CURRENT SEARCH: when a run from a query has reached a pending call and a
+    clause is taken for it from the counter `c`, every variable anywhere in the configuration (goal lists, substitution sets,
+    kept alternatives, inner searches) has an id at most `c`, and every variable of the clause instance an id in `(c, c']` -/
+theorem fresh_in_search (fo : FloatOps) {kb : KB} (hok : kbOK kb) (q : Goal) (c0 : Nat) (hq : goodG c0 q = true) (out0 : List String)
+    {t : Term} {σ : Subst} {idx n : Nat} {k : List CG} {S : List CFrame} {c : Nat} {o : List String}
+    (hrun : CSteps fo kb ⟨[.goals [.g q 0] []], c0, out0⟩ ⟨.try t σ idx n k :: S, c, o⟩)
+    (key : String) (r : Rule) (c' : Nat) (hget : getRule kb key idx c = .ok (r, c')) :
+    goodCFs c (.try t σ idx n k :: S) ∧ (rng c c' r.head = true ∧ rngG c c' r.body = true) :=
+  Blind.fresh_in_search fo hok q c0 hq out0 hrun key r c' hget
+
+/-- non-vacuity: `good` bounds ids from above, `rng` from both sides -/
+example : Blind.good 4 (.cplx (.cons (.atom "p") (.cons (.var 3 "$X") (.cons (.var 4 "$Y") .nil)))) = true ∧
+    Blind.rng 4 6 (.cplx (.cons (.atom "p") (.cons (.var 5 "$X") (.cons (.var 6 "$Y") .nil)))) = true ∧
+    Blind.rng 4 6 (.cplx (.cons (.atom "p") (.cons (.var 4 "$X") .nil))) = false := by decide
 
 end Suiron.C10
